@@ -13,6 +13,8 @@
                     filtered by membership)
   none-test         an `attrs=None` default meaning "all attributes" is tested by comparison with None, not by truthiness
                     (an empty attribute list is a legal argument and means the empty product)
+  exact-size        the number of cells is the exact (arbitrary-precision) product of the attribute sizes: reduce/math.prod over
+                    Python ints, not a fixed-width numpy product (domains beyond 2**63 cells are ordinary here)
 Not decided: cell-level histogram counts (numpy.histogramdd trusted).
 """
 import ast
@@ -267,6 +269,7 @@ def check_domain(ctx):
     ok = all(isinstance(r.value, ast.Call) and U(r.value.func) == 'self.project' for r in rets)
     ctx.ob('order-filter', fi, rets[0], ok, 'marginalize must return self.project(<kept attributes>)')
     none_tests(ctx, DOM, 'Domain')
+    check_size(ctx, methods['size'])
 
 
 def parallel(A, S):
@@ -306,3 +309,20 @@ def none_tests(ctx, rel, clsname):
                                 and isinstance(core.comparators[0], ast.Constant) and core.comparators[0].value is None:
                             ctx.ob('none-test', fi, n, True, 'None-default of `%s` tested by comparison with None' % p,
                                    construct=U(sub))
+
+
+def check_size(ctx, fi):
+    """full-domain size = exact integer product over self.shape"""
+    cands = [r.value for r in walk_shallow(fi.node) if isinstance(r, ast.Return) and r.value is not None and 'self.shape' in U(r.value)]
+    if not cands:
+        raise AnalysisError('Domain.size: product over self.shape not found')
+    for v in cands:
+        t = U(v).replace(' ', '')
+        exact = t in ('reduce(lambdax,y:x*y,self.shape,1)', 'math.prod(self.shape)', 'reduce(operator.mul,self.shape,1)',
+                      'functools.reduce(lambdax,y:x*y,self.shape,1)', 'prod(self.shape)')
+        fixed_width = any(isinstance(c, ast.Call) and (U(c.func).startswith(('np.', 'numpy.'))) for c in ast.walk(v))
+        if not exact and not fixed_width:
+            raise AnalysisError('Domain.size: unrecognised product form `%s`' % U(v))
+        ctx.ob('exact-size', fi, v, exact,
+               'the size of a domain is the exact product of its attribute sizes; `%s` %s' % (U(v), 'uses Python integers' if exact else
+                                                                                              'is a fixed-width numpy reduction that wraps silently at 2**63 cells'))
